@@ -1021,3 +1021,154 @@ Example C08_tr_join_run : TrViOp2.join_show (CLiteExt.callx TrViOp.ideal_ext Gen
 Proof. exact TrViOp2.join_run_examples. Qed.
 Local Open Scope N_scope.
 Local Open Scope Z_scope.
+
+(* ---------------------------------------------------------------------------------------------------------------------- *)
+(* vc_put (p / P) on the C TEXT (coq/TrViOp3.v; same oracle vocabulary).  reg_get is an oracle with one hypothesis for the call: NULL, or a
+   pointer to the register's text (in memory before the command) with the line-wise flag stored into the local lnmode (a one-cell block).
+   cnt = MAX(1, vi_arg1) (TrViOp3.put_cnt).
+   * unset register: snprintf(vi_msg, "yank buffer empty") and 0; empty text: 0; nothing is edited.
+   * line-wise register, buffer not empty: the builder holds cnt copies of the text; p moves xrow down one row first; lbuf_edit(xb, that text,
+     xrow, xrow); xoff = lbuf_indents of the NEW buffer at xrow; vi_drawfix(xrow, xrow, newlines + 1, 0); the builder is freed; 16.
+   * character-wise register on an existing row: off = ren_noeol(line, xoff), one further for p unless the line is empty (TrViOp3.putc_off);
+     the text handed to lbuf_edit is (line up to off) ++ cnt copies ++ (line from off) (TrViOp3.putc_text), the range (xrow, xrow + 1);
+     xoff = off + uc_slen(text of the register) * cnt - 1; vi_drawfix(xrow, xrow, newlines of the new text, 0); 16.
+   ren_noeol of ren.c runs as translated (re-proved in TrViOp3.v for a memory in which only the literal "" is required at its place). *)
+From NV Require TrViOp3.
+Local Close Scope Z_scope.
+Local Close Scope N_scope.
+Theorem C08_tr_vc_put_unset : forall (ext : nat -> list CLite.val -> CLite.mem -> CLite.res (CLite.val * CLite.mem)) (fuel : nat),
+       (nat -> Prop) ->
+       forall (D : nat) (m : CLite.mem) (cmd a1 y : Z) (lnm us : CLite.val) (ms : CLite.mem),
+       CLiteProps.cell_at m GenCFuncs.G_vi_arg1 a1 ->
+       CLiteProps.cell_at m GenCFuncs.G_vi_ybuf y ->
+       CLiteTac.int_ok a1 ->
+       CLiteTac.int_ok y ->
+       ext GenCFuncs.X_reg_get (CLite.VInt y :: CLite.VPtr (length m) 0 :: nil) (m ++ (CLite.VUndef :: nil) :: nil) = CLite.Ok (CLite.VInt 0, m ++ (lnm :: nil) :: nil) ->
+       ext GenCFuncs.X_snprintf (CLite.VPtr GenCFuncs.G_vi_msg 0 :: CLite.VInt 512 :: CLite.VPtr GenCFuncs.G_lit_79616e6b2062756666657220656d707479_17 0 :: nil) (m ++ (lnm :: nil) :: nil) =
+       CLite.Ok (us, ms) -> CLiteExt.callx ext GenCFuncs.cprog fuel (S (S D)) GenCFuncs.F_vc_put (CLite.VInt cmd :: nil) m = CLite.Ok (CLite.VInt 0, ms).
+Proof. exact TrViOp3.tr_vc_put_unset. Qed.
+Print Assumptions C08_tr_vc_put_unset.
+
+Theorem C08_tr_vc_put_empty : forall (ext : nat -> list CLite.val -> CLite.mem -> CLite.res (CLite.val * CLite.mem)) (fuel : nat),
+       (nat -> Prop) ->
+       forall (D : nat) (m : CLite.mem) (cmd a1 y : Z) (lnm : CLite.val) (rb : nat),
+       CLiteProps.cell_at m GenCFuncs.G_vi_arg1 a1 ->
+       CLiteProps.cell_at m GenCFuncs.G_vi_ybuf y ->
+       CLiteTac.int_ok a1 ->
+       CLiteTac.int_ok y ->
+       ext GenCFuncs.X_reg_get (CLite.VInt y :: CLite.VPtr (length m) 0 :: nil) (m ++ (CLite.VUndef :: nil) :: nil) = CLite.Ok (CLite.VPtr rb 0, m ++ (lnm :: nil) :: nil) ->
+       CLiteProps.str_at m rb nil -> CLiteExt.callx ext GenCFuncs.cprog fuel (S (S D)) GenCFuncs.F_vc_put (CLite.VInt cmd :: nil) m = CLite.Ok (CLite.VInt 0, m ++ (lnm :: nil) :: nil).
+Proof. exact TrViOp3.tr_vc_put_empty. Qed.
+Print Assumptions C08_tr_vc_put_empty.
+
+Theorem C08_tr_vc_put_lines : forall (ext : nat -> list CLite.val -> CLite.mem -> CLite.res (CLite.val * CLite.mem)) (fuel : nat),
+       TrViOp.oracles ext ->
+       forall (lown : nat -> Prop) (D : nat) (m : CLite.mem) (lb bln : nat) (lbs : list nat) (lines : list bytes) (cmd a1 y lnm : Z) 
+         (rb : nat) (txt : bytes) (xr xo : Z) (u' : CLite.val) (m6 : CLite.mem) (bln' : nat) (lbs' : list nat) (lines' : list bytes) 
+         (ud : CLite.val) (m9 : CLite.mem),
+       TrViOp.ed_cur m lb bln lbs lines ->
+       lines <> nil ->
+       CLiteProps.cell_at m GenCFuncs.G_vi_arg1 a1 ->
+       CLiteProps.cell_at m GenCFuncs.G_vi_ybuf y ->
+       CLiteProps.cell_at m GenCFuncs.G_xrow xr ->
+       CLiteProps.cell_at m GenCFuncs.G_xoff xo ->
+       CLiteTac.int_ok a1 ->
+       CLiteTac.int_ok y ->
+       CLiteTac.int_ok lnm ->
+       CLiteTac.int_ok cmd ->
+       CLiteTac.int_ok xr ->
+       CLiteTac.int_ok (xr + 1) ->
+       lnm <> 0%Z ->
+       ext GenCFuncs.X_reg_get (CLite.VInt y :: CLite.VPtr (length m) 0 :: nil) (m ++ (CLite.VUndef :: nil) :: nil) = CLite.Ok (CLite.VPtr rb 0, m ++ (CLite.VInt lnm :: nil) :: nil) ->
+       CLiteProps.str_at m rb txt ->
+       nonul txt ->
+       txt <> nil ->
+       let rep := TrViOp3.put_rep a1 txt in
+       let row := TrViOp3.put_row cmd xr in
+       (Z.of_nat (length rep) < 2147483647)%Z ->
+       TrViOpPure.nlcount rep + 1 < fuel ->
+       Z.to_nat (TrViOp3.put_cnt a1) < fuel ->
+       (forall b : nat, lown b -> b < length m) ->
+       ~ lown GenCFuncs.G_xrow ->
+       ~ lown GenCFuncs.G_xoff ->
+       ext GenCFuncs.X_lbuf_edit (CLite.VPtr lb 0 :: CLite.VPtr (length m + 1) 0 :: CLite.VInt row :: CLite.VInt row :: nil) (TrViOp3.putl_mem4 m lnm cmd a1 xr txt) = CLite.Ok (u', m6) ->
+       TrViOp.eframe lown (TrViOp3.putl_mem4 m lnm cmd a1 xr txt) m6 ->
+       TrViOp.ed_cur m6 lb bln' lbs' lines' ->
+       TrMot.maxlen lines' < fuel ->
+       let v := MotDefs.lbuf_indents (map MotDefs.chop lines') row in
+       ext GenCFuncs.X_vi_drawfix (CLite.VInt row :: CLite.VInt row :: CLite.VInt (Z.of_nat (TrViOpPure.nlcount rep) + 1) :: CLite.VInt 0 :: nil) (TrViOp3.putl_mem8 m m6 v) = CLite.Ok (ud, m9) ->
+       CLiteExt.callx ext GenCFuncs.cprog fuel (S (S (S (S D)))) GenCFuncs.F_vc_put (CLite.VInt cmd :: nil) m = CLite.Ok (CLite.VInt 16, m9).
+Proof. exact TrViOp3.tr_vc_put_lines. Qed.
+Print Assumptions C08_tr_vc_put_lines.
+
+Theorem C08_tr_vc_put_chars : forall (ext : nat -> list CLite.val -> CLite.mem -> CLite.res (CLite.val * CLite.mem)) (fuel : nat),
+       TrViOp.oracles ext ->
+       forall (lown : nat -> Prop) (D : nat) (m : CLite.mem) (lb bln : nat) (lbs : list nat) (lines : list bytes) (cmd a1 y : Z) 
+         (rb : nat) (txt : bytes) (xr xo : Z) (u' : CLite.val) (m6 : CLite.mem) (ud : CLite.val) (m9 : CLite.mem),
+       TrViOp.ed_cur m lb bln lbs lines ->
+       (0 <= xr < Z.of_nat (length lines))%Z ->
+       CLiteProps.cell_at m GenCFuncs.G_vi_arg1 a1 ->
+       CLiteProps.cell_at m GenCFuncs.G_vi_ybuf y ->
+       CLiteProps.cell_at m GenCFuncs.G_xrow xr ->
+       CLiteProps.cell_at m GenCFuncs.G_xoff xo ->
+       CLiteProps.str_at m GenCFuncs.G_lit__0 nil ->
+       CLiteTac.int_ok a1 ->
+       CLiteTac.int_ok y ->
+       CLiteTac.int_ok cmd ->
+       CLiteTac.int_ok xo ->
+       ext GenCFuncs.X_reg_get (CLite.VInt y :: CLite.VPtr (length m) 0 :: nil) (m ++ (CLite.VUndef :: nil) :: nil) = CLite.Ok (CLite.VPtr rb 0, m ++ (CLite.VInt 0 :: nil) :: nil) ->
+       CLiteProps.str_at m rb txt ->
+       nonul txt ->
+       txt <> nil ->
+       let s := TrMot.nthl lines (Z.to_nat xr) in
+       let off := TrViOp3.putc_off s cmd xo in
+       let text := TrViOp3.putc_text s cmd xo a1 txt in
+       TrViOp.sub_in (Some s) 0 off ->
+       TrViOp.sub_in (Some s) off (-1) ->
+       (Z.of_nat (length text) < 2147483647)%Z ->
+       TrViOpPure.nlcount text + 1 < fuel ->
+       Z.to_nat (TrViOp3.put_cnt a1) < fuel ->
+       TrMot.maxlen lines < fuel ->
+       length txt < fuel ->
+       let v := (off + Z.of_nat (UcDefs.uc_slen txt) * TrViOp3.put_cnt a1 - 1)%Z in
+       (Z.of_nat (UcDefs.uc_slen txt) * TrViOp3.put_cnt a1 <= 2147483647)%Z ->
+       CLiteTac.int_ok v ->
+       CLiteTac.int_ok (off + Z.of_nat (UcDefs.uc_slen txt) * TrViOp3.put_cnt a1) ->
+       (forall b : nat, lown b -> b < length m) ->
+       ~ lown GenCFuncs.G_xrow ->
+       ~ lown GenCFuncs.G_xoff ->
+       ~ lown rb ->
+       ext GenCFuncs.X_lbuf_edit (CLite.VPtr lb 0 :: CLite.VPtr (length m + 1) 0 :: CLite.VInt xr :: CLite.VInt (xr + 1) :: nil) (TrViOp3.putc_mem5 m 0 text) = CLite.Ok (u', m6) ->
+       TrViOp.eframe lown (TrViOp3.putc_mem5 m 0 text) m6 ->
+       ext GenCFuncs.X_vi_drawfix (CLite.VInt xr :: CLite.VInt xr :: CLite.VInt (Z.of_nat (TrViOpPure.nlcount text)) :: CLite.VInt 0 :: nil) (TrViOp3.putl_mem8 m m6 v) = CLite.Ok (ud, m9) ->
+       CLiteExt.callx ext GenCFuncs.cprog fuel (S (S (S (S (S (S D)))))) GenCFuncs.F_vc_put (CLite.VInt cmd :: nil) m = CLite.Ok (CLite.VInt 16, m9).
+Proof. exact TrViOp3.tr_vc_put_chars. Qed.
+Print Assumptions C08_tr_vc_put_chars.
+
+Example C08_tr_put_run : let rb := CLite.VPtr (length GenCFuncs.cglobals + 5) 0 in
+       let run :=
+         fun (lnm cmd xr xo a1 : Z) (txt : list Z) =>
+         TrViOp3.put_show (CLiteExt.callx (TrViOp3.put_ext rb lnm) GenCFuncs.cprog 60 10 GenCFuncs.F_vc_put (CLite.VInt cmd :: nil) (TrViOp3.put_mem_ex xr xo a1 txt)) in
+       run 1%Z 112%Z 1%Z 0%Z 2%Z (88%Z :: 10%Z :: nil) =
+       Some
+         (CLite.VInt 16, Some (CLite.VInt 2 :: nil), Some (CLite.VInt 0 :: nil),
+          map CLite.VInt (2%Z :: 2%Z :: 2%Z :: 88%Z :: 10%Z :: 88%Z :: 10%Z :: nil) :: map CLite.VInt (3%Z :: 2%Z :: 2%Z :: 3%Z :: 0%Z :: nil) :: nil) /\
+       run 1%Z 80%Z 1%Z 0%Z 0%Z (88%Z :: 10%Z :: nil) =
+       Some
+         (CLite.VInt 16, Some (CLite.VInt 1 :: nil), Some (CLite.VInt 0 :: nil),
+          map CLite.VInt (2%Z :: 1%Z :: 1%Z :: 88%Z :: 10%Z :: nil) :: map CLite.VInt (3%Z :: 1%Z :: 1%Z :: 2%Z :: 0%Z :: nil) :: nil) /\
+       run 0%Z 112%Z 1%Z 1%Z 2%Z (120%Z :: 121%Z :: nil) =
+       Some
+         (CLite.VInt 16, Some (CLite.VInt 1 :: nil), Some (CLite.VInt 5 :: nil),
+          map CLite.VInt (2%Z :: 1%Z :: 2%Z :: 99%Z :: 100%Z :: 120%Z :: 121%Z :: 120%Z :: 121%Z :: 101%Z :: 10%Z :: nil)
+          :: map CLite.VInt (3%Z :: 1%Z :: 1%Z :: 1%Z :: 0%Z :: nil) :: nil) /\
+       run 0%Z 80%Z 1%Z 1%Z 1%Z (120%Z :: 121%Z :: nil) =
+       Some
+         (CLite.VInt 16, Some (CLite.VInt 1 :: nil), Some (CLite.VInt 2 :: nil),
+          map CLite.VInt (2%Z :: 1%Z :: 2%Z :: 99%Z :: 120%Z :: 121%Z :: 100%Z :: 101%Z :: 10%Z :: nil)
+          :: map CLite.VInt (3%Z :: 1%Z :: 1%Z :: 1%Z :: 0%Z :: nil) :: nil) /\
+       TrViOp3.put_show (CLiteExt.callx (TrViOp3.put_ext (CLite.VInt 0) 0) GenCFuncs.cprog 60 10 GenCFuncs.F_vc_put (CLite.VInt 112 :: nil) (TrViOp3.put_mem_ex 1 1 1 nil)) =
+       Some (CLite.VInt 0, Some (CLite.VInt 1 :: nil), Some (CLite.VInt 1 :: nil), nil).
+Proof. exact TrViOp3.put_run_examples. Qed.
+Local Open Scope N_scope.
+Local Open Scope Z_scope.
